@@ -606,6 +606,9 @@ pub fn child_bodies(name: &str) -> Option<Vec<Body>> {
 /// `bppmc child sched <harness> <comma-separated prefix>`: run one schedule in this (fresh) process, print JSON
 pub fn child_main(args: &[String]) -> i32 {
     install_hooks();
+    if std::env::var("BPPMC_ALLOC_POINTS").as_deref() == Ok("1") {
+        set_alloc_points(true);
+    }
     let name = &args[0];
     let prefix: Vec<usize> = args.get(1).map(|s| s.split(',').filter(|x| !x.is_empty()).map(|x| x.parse().unwrap()).collect()).unwrap_or_default();
     let bodies = match child_bodies(name) {
@@ -631,10 +634,16 @@ pub fn child_main(args: &[String]) -> i32 {
 }
 
 pub fn run_in_child(harness: &str, prefix: &[usize]) -> Result<Execution, String> {
+    run_in_child_opts(harness, prefix, false)
+}
+
+/// `alloc_points`: every heap allocation of the racing threads is a scheduling point as well
+pub fn run_in_child_opts(harness: &str, prefix: &[usize], alloc_points: bool) -> Result<Execution, String> {
     let exe = std::env::current_exe().map_err(|e| e.to_string())?;
     let p: Vec<String> = prefix.iter().map(|x| x.to_string()).collect();
     let out = Command::new(exe)
         .args(["child", "sched", harness, &p.join(",")])
+        .env("BPPMC_ALLOC_POINTS", if alloc_points { "1" } else { "0" })
         .stdin(Stdio::null())
         .stderr(Stdio::null())
         .output()
@@ -739,6 +748,40 @@ pub fn explore_first_use(rep: &mut Report, id: &str, bound: usize, thorough: boo
             },
         );
         fold_stats(rep, id, &format!("first-use/{}", h), b, stats);
+
+        // finest granularity: a preemption at any heap allocation of the racing threads, once
+        let base_alloc = match run_in_child_opts(h, &[], true) {
+            Ok(b) => b,
+            Err(e) => {
+                rep.machinery.push(format!("first-use harness {} (every allocation): {}", h, e));
+                continue;
+            },
+        };
+        let base_results2 = base_alloc.results.clone();
+        let stats = explore(
+            1,
+            16,
+            |prefix| run_in_child_opts(h, prefix, true),
+            |x| {
+                for (t, r) in x.results.iter().enumerate() {
+                    match r {
+                        Err(p) => return Err(format!("call {} panicked: {}", t, p)),
+                        Ok(bytes) => {
+                            if Some(bytes) != base_results2.get(t).and_then(|r| r.as_ref().ok()) {
+                                return Err(format!("call {} (racing threads first, then the probe calls) differs from the sequential baseline", t));
+                            }
+                        },
+                    }
+                }
+                for c in 0..2 {
+                    if x.init_begins[c] > 1 {
+                        return Err(format!("initialiser of cached array {} ran {} times", c, x.init_begins[c]));
+                    }
+                }
+                Ok(format!("inits={:?},blocked={}", x.init_begins, x.stolen > 0))
+            },
+        );
+        fold_stats(rep, id, &format!("first-use/{}/every-allocation", h), 1, stats);
     }
 }
 
